@@ -160,11 +160,12 @@ def check(prop, tier, seed):
     results = smt.discharge(obs, timeout_s=timeout, seed=seed, cvc5_all=(tier == "thorough" and entry.get("cvc5_all", True)))
     solve_wall = time.time() - t1
 
-    proofs = [(o, r) for o, r in zip(obs, results) if o.expect == "unsat"]
+    proofs = [(o, r) for o, r in zip(obs, results) if o.expect == "unsat" and not o.meta.get("bounded")]
+    sym_bounded = [(o, r) for o, r in zip(obs, results) if o.expect == "unsat" and o.meta.get("bounded")]
     covers = [(o, r) for o, r in zip(obs, results) if o.expect == "sat"]
     discharged = [(o, r) for o, r in proofs if r["result"] == "unsat"]
-    refuted = [(o, r) for o, r in proofs if r["result"] == "sat"]
-    unknown = [(o, r) for o, r in proofs if r["result"] not in ("sat", "unsat")]
+    refuted = [(o, r) for o, r in proofs + sym_bounded if r["result"] == "sat"]
+    unknown = [(o, r) for o, r in proofs + sym_bounded if r["result"] not in ("sat", "unsat")]
     cover_fail = [(o, r) for o, r in covers if r["result"] == "unsat"]
     disagree = [(o, r) for o, r in zip(obs, results) if r.get("disagreement")]
 
@@ -205,6 +206,14 @@ def check(prop, tier, seed):
                 violations.append(("bounded:" + fl["key"], path, True))
             for er in b["errors"][:3]:
                 checker_failures.append("bounded case crashed: %s %s\n%s" % (er["kind"], json.dumps(er["params"])[:300], er["traceback"][-800:]))
+
+    if sym_bounded:
+        bounded_ev.append({"what": "symbolic execution with the loops unrolled for a fixed small size (structure-independent complement of the loop-invariant proof)",
+                           "bound": sorted({str(o.meta["bounded"]) for o, _ in sym_bounded})[0], "evaluations": len(sym_bounded),
+                           "distinct_nontrivial": len({o.name for o, _ in sym_bounded}),
+                           "rule": "one obligation per (path through the unrolled loops, slice); level values, orders, profiles, wavenumbers and states symbolic",
+                           "samples": [o.name for o, _ in sym_bounded[:3]], "per_kind": {}, "wall_s": 0.0,
+                           "failures": sum(1 for _, r in sym_bounded if r["result"] == "sat")})
 
     # ---- conformance of the index-level library contracts with the installed NumPy
     if entry.get("np_conformance"):
